@@ -75,6 +75,9 @@ func c16RunBatch(c *Ctx, cases []c16Case, idx *int) {
 			}
 			c.Count(key)
 			*idx++
+			if *idx%64 == 0 {
+				vrt.Forget()
+			}
 			if *idx%512 == 0 && c.Expired() {
 				*idx = len(cases)
 			}
@@ -148,6 +151,65 @@ func c16TearDown(c *Ctx) {
 				})
 			}
 		}
+	}
+}
+
+// c16Contention: AGGREGATE messages of two servers arrive while the result reporter reads the shared result set -
+// all schedules within two deviations; no crash, no deadlock, and the final result accounts for every message once.
+func c16Contention(c *Ctx) {
+	for _, msgsPerServer := range []int{1, 2} {
+		msgsPerServer := msgsPerServer
+		sc := &explore.Scenario{Name: "c16-aggregate-contention", Params: fmt.Sprintf("2 servers x %d AGGREGATE messages + reporter", msgsPerServer), Agg: "c16-aggregate-contention",
+			MaxSteps: 300000, Horizon: 10 * time.Minute}
+		sc.Run = func(cfg vrt.Config) (string, string, vrt.Result) {
+			var viol string
+			res := vrt.Run(cfg, func() {
+				args := DefaultArgs()
+				args.Logger = "none"
+				args.LogLevel = "error"
+				StartEnv(source.Client, &args, nil)
+				q, err := mapr.NewQuery("select count(x),sum(y) group by k")
+				if err != nil {
+					panic(err)
+				}
+				g := mapr.NewGlobalGroupSet()
+				done := vrt.Make[struct{}]("joined", 4)
+				for s := 0; s < 2; s++ {
+					h := chandlers.NewMaprHandler(fmt.Sprintf("srv%d", s), q, g)
+					vrt.Go(fmt.Sprintf("server-bytes-%d", s), func() {
+						for m := 0; m < msgsPerServer; m++ {
+							h.Write([]byte("AGGREGATE|h|k∥1∥count(x)≔1∥sum(y)≔2∥" + c16Delim))
+						}
+						done.Send("j", struct{}{})
+					})
+				}
+				vrt.Go("reporter", func() {
+					g.Result(q, 10)
+					done.Send("j", struct{}{})
+				})
+				for i := 0; i < 3; i++ {
+					done.Recv("join")
+				}
+				out, n, err := g.Result(q, 10)
+				want := fmt.Sprintf("%d", 2*msgsPerServer)
+				if err != nil || n != 1 || !strings.Contains(out, want) {
+					viol = fmt.Sprintf("after %d AGGREGATE messages (count 1, sum 2 each, same group) the result set holds %d rows: %q (err %v); want one row with count %s", 2*msgsPerServer, n, out, err, want)
+				}
+			})
+			if res.Fail != nil {
+				return "fail:" + res.Fail.Kind, res.Fail.Error(), res
+			}
+			if viol != "" {
+				return "wrong", viol, res
+			}
+			return "ok", "", res
+		}
+		c.Explore(sc, 2, func(msg string, v *explore.Violation) string {
+			if strings.HasPrefix(msg, "after ") {
+				return "aggregate-messages-miscounted-under-contention"
+			}
+			return c16Sig(c16Case{Handler: "mapr", Stream: "AGGREGATE"}, msg)
+		})
 	}
 }
 
@@ -233,10 +295,11 @@ func init() {
 			"newline, the 0xAC message delimiter, the aggregate delimiters, an escape sequence), 30 well-formed/nearly well-formed records followed by every record or token, each record split across two Write calls " +
 			"at every byte; each stream is fed to the real ClientHandler, MaprHandler and HealthHandler twice (colours off/on) under the controlled scheduler; oracle: no panic in any goroutine and " +
 			"strip(coloured) == strip(uncoloured) where strip removes SGR escape sequences (applied to both sides); non-trivial = the stream makes the client print something; " +
-			"plus, under ALL schedules within two deviations: a stream with the hidden close message written to each handler while one or two other goroutines shut the handler down and a third reads its commands (the tear-down of a connection): no panic, no deadlock",
+			"plus, under ALL schedules within two deviations: a stream with the hidden close message written to each handler while one or two other goroutines shut the handler down and a third reads its commands (the tear-down of a connection), and AGGREGATE messages of two servers arriving while the reporter reads the shared result set: no panic, no deadlock, every message counted once",
 		Assumptions: []string{"output goes through the real stdout logger into a virtual stdout; canonical schedule per stream (all schedules for the tear-down scenarios)"},
 		Run: func(c *Ctx) {
 			c16TearDown(c)
+			c16Contention(c)
 			all := c16Cases(c.Thorough())
 			var mine []c16Case
 			for _, cs := range all {
